@@ -319,7 +319,12 @@ def semLine (_ : Unit) (line : String) : Unit × String :=
     let ev := eagerVal P
     let semSolvesSw : Bool := swHyp && solutionSwB P ev &&
       st.demanded.all (fun n => !P.g.nodes.contains n || semVal n == ev n)
+    -- switch / one-of programs (no recurrent destination): hypotheses of the safety theorems of Proofs/Safe.lean
+    let oneHyp : Bool := onePB P
+    let semSolvesOne : Bool := oneHyp && solutionOneB P ev &&
+      st.demanded.all (fun n => !P.g.nodes.contains n || semVal n == ev n)
     ((), (Json.mkObj [("outcome", Json.str oc), ("causes", jsonStrs causes), ("calls", jsonStrs calls),
+                      ("one_hyp", Json.bool oneHyp), ("sem_solves_one", Json.bool semSolvesOne),
                       ("demanded", toJson st.demanded), ("values", Json.mkObj vals),
                       ("plain_hyp", Json.bool plainHyp), ("sem_solves", Json.bool semSolves),
                       ("sw_hyp", Json.bool swHyp), ("sem_solves_sw", Json.bool semSolvesSw)]).compress)
